@@ -244,4 +244,45 @@ def bits (ver v : Nat) (sep : Option (List Char)) : R (List Char) :=
 def packed (ver v : Nat) : R (List Nat) :=
   if ver = 48 then Codec.E48.intToPacked v else Codec.E64.intToPacked v
 
+/-! ## additions (error classes, EUI-64 receivers of is_iab / iab, format) -/
+
+/-- `_set_value` with an explicit version, spelled as the code is: only an `AddrFormatError`
+    of `str_to_int` is caught and re-raised; any other exception class would travel on unchanged
+    (`setExplicit` maps every error to `addrFormat`; `Lemmas/C08LCtor.lean` proves that
+    `str_to_int` has no other error, so the two agree: `setExplicitF_eq`) -/
+def setExplicitF (ver : Nat) : AddrArg → R (Nat × Nat)
+  | .str s => match strToInt ver s with
+    | .ok v => .ok (ver, v)
+    | .error .addrFormat => .error .addrFormat
+    | .error e => .error e
+  | .int n => if 0 ≤ n ∧ n ≤ (maxInt ver : Int) then .ok (ver, n.toNat) else .error .addrFormat
+
+/-- `EUI(addr, version)` → (version, value), with `setExplicitF` (the function the driver runs;
+    `ofAnyF_eq : ofAnyF = ofAny`) -/
+def ofAnyF (addr : AddrArg) (version : Option Int) : R (Nat × Nat) :=
+  match version with
+  | some ver => if ver = 48 ∨ ver = 64 then setExplicitF ver.toNat addr else .error .value
+  | none =>
+    match addr with
+    | .int n =>
+      if 0 ≤ n ∧ n ≤ 0xffffffffffff then setExplicitF 48 addr
+      else if 0xffffffffffff < n ∧ n ≤ 0xffffffffffffffff then setExplicitF 64 addr
+      else .error .type_
+    | .str s => setImplicitStr s
+
+/-- `EUI.is_iab()` on a receiver of either version: `(self._value >> 24) in IAB.IAB_EUI_VALUES`
+    — the code does not look at the version -/
+def isIabOf (_ver v : Nat) : Bool := isIab v
+
+/-- `EUI.iab` on a receiver of either version: `IAB(self._value >> 12)` when `is_iab()` -/
+def iabOf (_ver v : Nat) : R (Option Nat) := iab v
+
+/-- `EUI.__str__()`: `self._module.int_to_str(self._value, self._dialect)` -/
+def str (d : Dialect) (v : Nat) : R (List Char) := intToStr d v
+
+/-- `EUI.format(dialect)`: `_validate_dialect(dialect)` (None → the default dialect of the
+    receiver's version, NOT the receiver's own dialect), then `int_to_str` -/
+def format (ver v : Nat) (arg : Option Dialect) : R (List Char) :=
+  intToStr (arg.getD (defaultDialect ver)) v
+
 end NV.Eui
